@@ -126,6 +126,34 @@ func init() {
 	}
 }
 
+func init() {
+	// C03: a contains-edge whose target is the document's root cannot be written as nesting,
+	// because the root is the metadata component
+	KnownPredicates["cdx_root_contained"] = func(c *Case) bool {
+		if c.Kind != "oracle" {
+			return false
+		}
+		doc, _ := c.Op["doc"].(M)
+		nl, _ := doc["nl"].(M)
+		roots := asList(nl["roots"])
+		if len(roots) == 0 {
+			return false
+		}
+		root := asStr(roots[0])
+		seen := false
+		for _, m := range c.Messages {
+			if m == "(not minimised)" {
+				continue
+			}
+			if !(strings.HasPrefix(m, "containment ") && strings.HasSuffix(m, " -> "+root+" is not expressed in the CycloneDX output")) {
+				return false
+			}
+			seen = true
+		}
+		return seen
+	}
+}
+
 // Covered returns the id of the first known finding whose predicate covers the case.
 func (kf *KnownFile) Covered(c *Case) string {
 	for _, k := range kf.Known {
